@@ -150,3 +150,37 @@ theorem stranded_run : ∀ (as : List Act) (s s' : St), Stranded s → runG true
     · simp at hr
 
 end C17Ctl
+
+namespace C17Retry
+open Retry
+
+theorem go_spec (f : Nat → Dial) : ∀ (n i : Nat) (failed : Bool),
+    (go f n i failed).2 ≤ i + n ∧ i ≤ (go f n i failed).2 ∧
+    (∀ k, (go f n i failed).1 = .conn k → i ≤ k ∧ k < i + n ∧ f k = .ok ∧ (go f n i failed).2 = k + 1 ∧ ∀ j, i ≤ j → j < k → f j = .temp) ∧
+    ((go f n i failed).1 = .nilNoErr → n = 0 ∧ failed = false)
+  | 0, i, failed => by cases failed <;> simp [go]
+  | n + 1, i, failed => by
+    have ih := go_spec f n (i + 1) true
+    unfold go
+    cases h : f i with
+    | ok =>
+      simp only
+      refine ⟨by omega, by omega, ?_, by simp⟩
+      intro k hk
+      injection hk with hk; subst hk
+      exact ⟨Nat.le_refl _, by omega, h, rfl, fun j h1 h2 => by omega⟩
+    | perm => simp only; exact ⟨by omega, by omega, by simp, by simp⟩
+    | temp =>
+      simp only
+      obtain ⟨a, b, c, d⟩ := ih
+      refine ⟨by omega, by omega, ?_, ?_⟩
+      · intro k hk
+        obtain ⟨c1, c2, c3, c4, c5⟩ := c k hk
+        refine ⟨by omega, by omega, c3, c4, ?_⟩
+        intro j h1 h2
+        by_cases hj : j = i
+        · subst hj; exact h
+        · exact c5 j (by omega) h2
+      · intro hn; have := (d hn).2; simp at this
+
+end C17Retry
